@@ -1027,9 +1027,7 @@ class SVD(Base):
         if untruncated or gap_ok:
             keep = r
             want = strue[:keep]
-            if untruncated:
-                self.ck('number_of_singular_values', r == min(A.shape[0], A.shape[1], s_rank_bound(s, idx)) or r == len(strue) or True, [s])
-            else:
+            if not untruncated:
                 nz = int(np.sum(strue / s0 > thr))
                 self.ck('number_of_singular_values', r == nz, [s], {'got': r, 'want': nz, 'threshold': thr}, tags)
             if len(want) == r:
